@@ -47,3 +47,13 @@ package spec
 //@   ensures complete-domain: (len(id) >= 4 && id[0] == 33 && ridHasDomain(id) && len(ridOpaque(id)) >= 1 && serverNameOK(ridDomain(id))) ==> err == nil
 //@   ensures complete-domainless: (len(id) >= 4 && id[0] == 33 && !ridHasDomain(id) && extcall("(*regexp.Regexp).MatchString", domainlessRoomIDRegexp, substr(id, 1, len(id)))) ==> err == nil
 //@   assigns nothing
+
+//@ func (Timestamp).Time
+//@   property C12, C06
+//@   ensures nanos: unixNano(result) == t * 1000000
+//@   assigns nothing
+
+//@ func AsTimestamp
+//@   property C12
+//@   ensures millis: unixNano(t) >= 0 ==> result == unixNano(t) / 1000000
+//@   assigns nothing
